@@ -49,10 +49,11 @@ Section C01.
       0 < T -> V <> 0 -> ei <> 0 -> ej <> 0 ->
       let P := - (F_zp1 K w sp V + F_th1 K w sp T V) in
       let A := V * (F_zp2 K w sp V + F_th2 K w sp T V) - P in
-      isothermal (OF:=ROps) K Q1_exp Q2_exp lg w na (freq V) (gam V) (vdr V) ei ej V T p pst
+      isothermal (OF:=ROps) K Q1_neg Q2_neg lg w na (freq V) (gam V) (vdr V) ei ej V T p pst
       = A / ((if lg then 5 else 15) * ei * ej) + (if lg then P / (3 * ei) else p - pst).
   Proof.
     intros lg ei ej V T p pst HT HV Hi Hj P A. unfold freq, gam, vdr.
+    rewrite isothermal_neg_eq_l by assumption.
     erewrite isothermal_strain_derivative_l by eassumption.
     unfold A, P. destruct lg; field; repeat split; assumption.
   Qed.
@@ -71,10 +72,11 @@ Section C01.
   Theorem thermal_is_strain_derivative :
     forall (lg : bool) (ei ej V T : R), 0 < T -> V <> 0 -> ei <> 0 -> ej <> 0 ->
       let P := - F_th1 K w sp T V in let A := V * F_th2 K w sp T V - P in
-      thermal (OF:=ROps) K Q1_exp Q2_exp lg w na (freq V) (gam V) (vdr V) ei ej V T
+      thermal (OF:=ROps) K Q1_neg Q2_neg lg w na (freq V) (gam V) (vdr V) ei ej V T
       = A / ((if lg then 5 else 15) * ei * ej) + (if lg then P / (3 * ei) else 0).
   Proof.
     intros lg ei ej V T HT HV Hi Hj P A. unfold freq, gam, vdr.
+    rewrite thermal_neg_eq_l by assumption.
     erewrite thermal_strain_derivative_l by eassumption.
     unfold A, P. destruct lg; field; repeat split; assumption.
   Qed.
@@ -86,14 +88,19 @@ Section C01.
   Theorem value_isothermal_at_zero_T :
     forall (lg : bool) (ei ej V p pst : R), V <> 0 -> ei <> 0 -> ej <> 0 ->
       let P := - F_zp1 K w sp V in let A := V * F_zp2 K w sp V - P in
-      isothermal (OF:=ROps) K Q1_exp Q2_exp lg w na (freq V) (gam V) (vdr V) ei ej V 0 p pst
+      isothermal (OF:=ROps) K Q1_neg Q2_neg lg w na (freq V) (gam V) (vdr V) ei ej V 0 p pst
       = A / ((if lg then 5 else 15) * ei * ej) + (if lg then P / (3 * ei) else p - pst).
   Proof.
     intros lg ei ej V p pst HV Hi Hj P A. unfold freq, gam, vdr.
-    erewrite isothermal_at_zero_T_l by eassumption.
-    unfold A, P. destruct lg; field; repeat split; assumption.
+    unfold A, P. destruct lg; unfold isothermal; cbn [add sub ROps]; rewrite thermal_at_zero_T_l;
+      erewrite zero_point_strain_derivative_l by eassumption; field; repeat split; assumption.
   Qed.
 End C01.
+
+(** the exp(-Q) forms the code evaluates are the textbook Bose factors *)
+Theorem bose_forms_equal :
+  forall q, 0 < q -> Q1_neg (OF:=ROps) q = Q1_exp (OF:=ROps) q /\ Q2_neg (OF:=ROps) q = Q2_exp (OF:=ROps) q.
+Proof. exact bose_forms_equal_l. Qed.
 
 Theorem gamma_is_minus_dlnw_dlnV_and_vdr_its_derivative :
   forall m V, smooth_positive m -> exists g', is_derive (gamma_of m) V g' /\ vdr_of m V = V * g'.
@@ -124,6 +131,7 @@ Proof.
 Qed.
 
 Print Assumptions value_isothermal_is_strain_derivative.
+Print Assumptions bose_forms_equal.
 Print Assumptions zero_point_is_strain_derivative.
 Print Assumptions thermal_is_strain_derivative.
 Print Assumptions F_ph_derivatives.
